@@ -271,7 +271,7 @@ fn on_hang(scn_name: &str, idx: u64) {
     let prop = s.property;
     let (rseed, case) = runner::gen_case(&s, seed, tier, idx);
     let sig = format!("{prop}:non-termination");
-    let hang_s = env_u64("VERIF_HANG_S", 180);
+    let hang_s = env_u64("VERIF_HANG_S", 600);
     let path = out_root().join("replays").join(prop).join(format!("{}-{}-{}.json", sanitize(&sig), rseed, profile()));
     write_json(&path, &json!({
         "property": prop, "scenario": s.name, "profile": profile(), "signature": sig, "hang": true,
@@ -620,7 +620,7 @@ fn cmd_replay(path: &Path, verify: bool) -> i32 {
             eprintln!("harness error: cannot start the probe process");
             return 2;
         };
-        let deadline = Instant::now() + Duration::from_secs(env_u64("VERIF_HANG_S", 180));
+        let deadline = Instant::now() + Duration::from_secs(env_u64("VERIF_HANG_S", 600));
         loop {
             match child.try_wait() {
                 Ok(Some(_)) => {
